@@ -304,7 +304,9 @@ func bonusFor(prevClass charClass, class charClass) int16 {
 
 func bonusAt(input *util.Chars, idx int) int16 {
 	if idx == 0 {
-		return bonusBoundaryWhite
+		// Like the other matchers: what precedes the first character
+		// depends on the scheme
+		return bonusMatrix[initialCharClass][charClassOf(input.Get(idx))]
 	}
 	return bonusMatrix[charClassOf(input.Get(idx-1))][charClassOf(input.Get(idx))]
 }
